@@ -230,8 +230,12 @@ func runCfg(n *node, f *frame, funcNode, callNode *node) {
 			if !ok || errorer.Error() != errAbortHandler.Error() {
 				fmt.Fprintln(n.interp.stderr, oNode.cfgErrorf("panic: %s(...)", panicFunc(oNode.scope)))
 			}
+			// The panic goes on in the caller: it is not in flight in this frame any more
+			// (the global frame outlives the evaluation, see recover).
+			r := f.recovered
+			f.recovered = nil
 			f.mutex.Unlock()
-			panic(f.recovered)
+			panic(r)
 		}
 		f.mutex.Unlock()
 	}()
